@@ -90,6 +90,23 @@ def run(tier='quick', seed=0):
                                            'what': 'explain(%s, %s) raised %s: %s' % (x, y, type(e).__name__, e),
                                            'equations': repr(list(order))})
                         continue
+                    # the equations named by the explanation must entail the queried equality on their own
+                    used_c, used_a = [], []
+                    for (p, q), path in ex.items():
+                        for eq in path:
+                            if eq[0] == congc.EQ_CONST:
+                                used_c.append((eq[1], eq[2]))
+                            else:
+                                used_a.extend([eq[1], eq[2]])
+                    try:
+                        find_ex = naive_closure(consts, used_c, [e for e in used_a if e in app_eqs])
+                        if find_ex(x) != find_ex(y):
+                            violations.append({'function': 'prover.congc.CongClosure.explain', 'clause': 'sufficient',
+                                               'what': 'the equations of explain(%s, %s) = %s do not entail %s = %s' % (
+                                                   x, y, sorted(set(map(repr, used_c + used_a))), x, y),
+                                               'equations': repr(list(order))})
+                    except Exception:
+                        pass
                     for (p, q), path in ex.items():
                         for eq in path:
                             if eq[0] == congc.EQ_CONST:
@@ -129,6 +146,23 @@ def run(tier='quick', seed=0):
                 eqs.append((rng.choice(cs), rng.choice(cs)))
             else:
                 eqs.append(((rng.choice(cs), rng.choice(cs)), rng.choice(cs)))
+        check_eqs(eqs, nconst)
+
+    # constant-only trees: 5-7 constants joined by a random spanning tree given in a random order and orientation
+    # (deep proof-forest paths get reversed), plus a few redundant equations
+    for it in range(150 if tier == 'quick' else 3000):
+        nconst = rng.randint(5, 7)
+        cs = ['c%d' % i for i in range(nconst)]
+        perm = rng.sample(cs, nconst)
+        eqs = []
+        for i in range(1, nconst):
+            j = rng.randrange(i) if rng.random() < 0.5 else i - 1       # chains and bushier trees
+            eqs.append((perm[i], perm[j]) if rng.random() < 0.5 else (perm[j], perm[i]))
+        if rng.random() < 0.4:
+            eqs = eqs[:-1]                                               # two components
+        rng.shuffle(eqs)
+        for _ in range(rng.choice([0, 0, 1, 2])):
+            eqs.append((rng.choice(cs), rng.choice(cs)))
         check_eqs(eqs, nconst)
 
     # HOL wrapper: explanation is a checker-accepted theorem with hypotheses among the merged equations
